@@ -76,7 +76,7 @@ class Scratch:
         self.close()
 
     # ---- Cargo.toml surgery -------------------------------------------------------------
-    def use_models(self, names=("heed", "roaring", "tempfile", "memmap2")):
+    def use_models(self, names=("heed", "roaring", "tempfile", "memmap2", "tracing")):
         """Point the named dependencies at the environment models; drop dev-deps/examples."""
         lines = self.read("Cargo.toml").splitlines()
         out, section, skip = [], None, False
